@@ -174,6 +174,11 @@ def check_pmtree(ctx, fb):
               "remove_indices: %s - a removal-only batch must reset exactly the listed positions (removing {0, 5} must not wipe 1..4)" % why, loc(it2))
 
 
+def project_field(v, name):
+    from ..symex import project
+    return project(v, ("f", name)) if v is not None else None
+
+
 def check_passthrough(ctx, fb, cfg):
     opq = opaque_rx(r"ZerokitMerkleTree>::|^rln::utils::bytes_le_to_vec_(fr|u8)$|^rln::public::RLN::(set_tree|set_leaves_from)$")
     # set_leaves_from
@@ -195,19 +200,28 @@ def check_passthrough(ctx, fb, cfg):
     it = fb.need("rln::public::RLN::init_tree_with_leaves")
     ctx.touch(it)
     eng = Engine(fb, inline=opq)
+    oks = [p for p in eng.run(it) if p.kind == "return" and known_ok(eng.value_of(p.store, p.ret)) is True]
     ok = False
-    why = ""
-    for p in eng.run(it):
-        if p.kind != "return":
-            continue
-        st = p.calls(r"RLN::set_tree$")
-        sl_ = p.calls(r"RLN::set_leaves_from$")
-        if sl_:
-            dp = st[0][2][1] if st else None
-            okd = isinstance(dp, tuple) and dp[0] == "call" and dp[1].endswith("ZerokitMerkleTree>::depth") and dp[2] == (F(P(1), "tree"),)
-            ok = len(st) == 1 and okd and cint(sl_[0][2][1]) == 0 and sl_[0][2][2] == P(2)
-            why = "set_tree(%s) then set_leaves_from(%s, %s)" % (sh(dp, 60), sh(sl_[0][2][1], 20), sh(sl_[0][2][2], 20))
-    ctx.check(ok, "R08-5", "RLN::init_tree_with_leaves[%s]" % cfg, "set_tree(current depth) then set_leaves_from(0, input)", why or "shape", loc(it))
+    why = "expected one success path, found %d" % len(oks)
+    if len(oks) == 1:
+        p = oks[0]
+        INPUT = find_input(p, 2)
+        mk = p.calls(r"ZerokitMerkleTree>::default$")
+        ov = p.calls(r"ZerokitMerkleTree>::override_range$")
+        dp = mk[0][2][0] if mk else None
+        okd = isinstance(dp, tuple) and dp[0] == "call" and dp[1].endswith("ZerokitMerkleTree>::depth") and dp[2] == (F(P(1), "tree"),)
+        if INPUT is not None and len(mk) == 1 and len(ov) == 1 and okd:
+            fresh = ("unwrap", ("call", mk[0][1], mk[0][2]))
+            leaves = F(("unwrap", call("rln::utils::bytes_le_to_vec_fr", INPUT)), "0")
+            a_ = ov[0][2]
+            final = p.param_final(1)
+            newtree = project_field(final, "tree")
+            ok = a_[0] == fresh and cint(a_[1]) == 0 and a_[2] == leaves and a_[3][0] == "array" and len(a_[3][1]) == 0 and \
+                isinstance(newtree, tuple) and newtree[0] == "upd" and newtree[3][0] == fresh
+            why = "default(%s); override_range(%s); self.tree := %s" % (sh(dp, 50), [sh(x, 50) for x in a_], sh(newtree, 80))
+        else:
+            why = "fresh tree / single batch write not found (default calls %d, override_range calls %d)" % (len(mk), len(ov))
+    ctx.check(ok, "R08-5", "RLN::init_tree_with_leaves[%s]" % cfg, "fresh tree of the current depth; override_range(0, decoded leaves, no removals) on it; installed on success", why, loc(it))
     # atomic_operation
     it = fb.need("rln::public::RLN::atomic_operation")
     ctx.touch(it)
